@@ -71,6 +71,7 @@ def observe_msg(mid, mabs, seed):
     from mosromgr.mostypes import MosFile
     from mosromgr.moselements import Story
     g = Gamma("%s|%s" % (seed, mid))
+    g.str_decl = True
     text = g.msg(mabs)
     table = {}
     proj = project.project_msg_xml(mabs["cls"], ElementTree.fromstring(text))
